@@ -130,19 +130,40 @@ theorem c04_npm_nonregistry_never (content : Text) (child v : Node) (hv : child.
       simp only [hv]
       split
       · rfl
-      · simp [hc]
+      · split
+        · rfl
+        · simp [hc]
 
 /-- **what an entry yields**: a `"key": "value"` pair yields exactly one package — named by the alias target for
     `npm:` specifiers and by the key otherwise — with the value as its spec; anything that is not a string value yields nothing -/
 theorem c04_npm_entry (content : Text) (child k v : Node) (hk : child.kind = "pair")
     (hkey : child.childByField "key" = some k) (hv : child.childByField "value" = some v) (hs : v.kind = "string")
+    (hcl : closedString (nodeText content v) = true)
     (hc : nonRegistry (unquoteDq (nodeText content v)) = false) :
     (npmEntry content child).map (fun p => (p.name, p.version, p.commitHash)) =
       some ((npmNameVersion (unquoteDq (nodeText content k)) (unquoteDq (nodeText content v))).1,
             (npmNameVersion (unquoteDq (nodeText content k)) (unquoteDq (nodeText content v))).2, none) := by
   have hk' : (child.kind != "pair") = false := by simp [hk]
   have hs' : (v.kind != "string") = false := by simp [hs]
-  simp only [npmEntry, hk', hkey, hv, hs', hc, Bool.false_eq_true, if_false, Option.map_some]
+  simp only [npmEntry, hk', hkey, hv, hs', hcl, hc, Bool.not_true, Bool.false_eq_true, if_false, Option.map_some]
+
+/-- a value whose closing quote is missing (the document is being typed) is not a dependency yet (F-C05-4, fixed) -/
+theorem c04_npm_unclosed_never (content : Text) (child v : Node) (hv : child.childByField "value" = some v)
+    (hc : closedString (nodeText content v) = false) : npmEntry content child = none := by
+  unfold npmEntry
+  split
+  · rfl
+  · cases child.childByField "key" with
+    | none => rfl
+    | some k =>
+      simp only [hv]
+      split
+      · rfl
+      · simp [hc]
+
+theorem c04_closedString_examples :
+    closedString "\"1.0\"".toList = true ∧ closedString "'1.0'".toList = true ∧ closedString "\"".toList = false ∧
+    closedString "\"1.0".toList = false ∧ closedString "\"1.0'".toList = false ∧ closedString [] = false := by decide
 
 theorem c04_npm_nonstring_never (content : Text) (child v : Node) (hv : child.childByField "value" = some v)
     (hs : v.kind ≠ "string") : npmEntry content child = none := by
@@ -213,7 +234,9 @@ theorem c04_jsr_only_jsr (content : Text) (child v : Node) (hv : child.childByFi
   · simp only [hv]
     split
     · rfl
-    · unfold Sites.jsrSpecifier; rw [h]
+    · split
+      · rfl
+      · unfold Sites.jsrSpecifier; rw [h]
 
 /-- `jsr:@scope/name@spec` is checked as `@scope/name` with spec `spec` -/
 theorem c04_jsr_exact (scope name spec : Text)
